@@ -86,6 +86,22 @@ Theorem C17_fin_cc_empty : forall c, fin_visit (VLeaf c) = [].
 Proof. exact fin_visit_cc_empty. Qed.
 Print Assumptions C17_fin_cc_empty.
 
+(** User-leaf reading of the trace half: the user [trace] calls made by one [trace] call are
+    exactly the user values outside borrowed cells, in order; in particular a sequence of [n]
+    ZERO-SIZED elements is traced and finalized [n] times in every sequence container. *)
+Theorem C17_utrace_users : forall v : value, utrace v = users_unborrowed v.
+Proof. exact utrace_users. Qed.
+Print Assumptions C17_utrace_users.
+
+Theorem C17_zst_sequences : forall n : nat,
+  let l := repeat VZst n in
+  utrace (VVec l) = repeat zst_tag n /\ utrace (VArray l) = repeat zst_tag n /\
+  utrace (VBox (VSlice l)) = repeat zst_tag n /\
+  fin_visit (VVec l) = repeat zst_tag n /\ fin_visit (VArray l) = repeat zst_tag n /\
+  fin_visit (VBox (VSlice l)) = repeat zst_tag n.
+Proof. exact zst_sequences. Qed.
+Print Assumptions C17_zst_sequences.
+
 (** Pins: the statements above are about the definitions of Containers.v, at these types. *)
 Check visit : value -> list nat.
 Check fin_visit : value -> list nat.
@@ -100,6 +116,8 @@ Check C17_visit_exactly_once : forall (v : value) (c : nat),
   count_occ Nat.eq_dec (visit v) c = if in_dec Nat.eq_dec c (owned_unborrowed v) then 1 else 0.
 Check C17_visit_iff_position : forall (v : value) (c : nat), In c (visit v) <-> exists p, cc_at v p c.
 Check C17_refcell_borrowed : forall (b : bstate) (v : value), b <> BFree -> visit (VRefCell b v) = [].
+Check utrace : value -> list nat.
+Check C17_utrace_users : forall v : value, utrace v = users_unborrowed v.
 Check C17_fin_visit_users : forall v : value, fin_visit v = users_unlocked v.
 Check C17_fin_visit_exactly_once : forall (v : value) (c : nat),
   NoDup (users v) ->
